@@ -2,9 +2,9 @@ package main
 
 import (
 	"bytes"
-	"math/big"
 	"context"
 	"fmt"
+	"math/big"
 	"os"
 	"os/exec"
 	"path/filepath"
@@ -294,7 +294,11 @@ func (d *Discharger) discharge(o *Obligation) {
 		d.dischargeBatch(o)
 		return
 	}
-	r := d.run(o.Name, o.Hyps, o.Goal, o.Inputs, d.timeout, o.Reveal)
+	t0 := d.timeout
+	if o.Split != nil && t0 > 6 {
+		t0 = 6 // a case split is available: do not spend the whole budget on the unsplit goal
+	}
+	r := d.run(o.Name, o.Hyps, o.Goal, o.Inputs, t0, o.Reveal)
 	if r.status != "unsat" && o.Split != nil && r.status != "sat" {
 		d.dischargeSplit(o)
 		return
